@@ -21,7 +21,7 @@ Verdict ==
   LET p == E[Probe("idle")] IN
   IF Long /\ p.live > 0 THEN <<"not_released_after_idle_timeout", Probe("idle")>>
   ELSE IF Long /\ ~p.idle_marked THEN <<"released_but_not_marked_idle", Probe("idle")>>
-  ELSE IF ~Long /\ p.live = 0 THEN <<"released_before_idle_timeout", Probe("idle")>>
+  ELSE IF Tr.gap < Tr.idle_timeout * 10 /\ p.live = 0 THEN <<"released_before_idle_timeout", Probe("idle")>>
   ELSE IF \E w \in {Tr.after[i] : i \in 1..Len(Tr.after)} : Failed(w) THEN <<"send_after_idle_failed", 0>>
   ELSE IF \E w \in {Tr.after[i] : i \in 1..Len(Tr.after)} : SentOk(w) /\ ~Answered(w) THEN <<"run_did_not_continue_after_send", 0>>
   ELSE IF HasProbe("end") /\ Tr.expect_answers # E[Probe("end")].answers THEN <<"run_did_not_continue_from_where_it_stopped", Probe("end")>>
